@@ -3,26 +3,25 @@ CONSTANTS
   Keys = {"k1", "k2"}
   Times = {0}
   Types = {"n", "b"}
-  Threads = {"w1", "w2", "s1", "d1", "r1"}
+  Threads = {"w1", "w2", "d1"}
   Writers = {"w1", "w2"}
-  Snappers = {"s1"}
+  Snappers = {}
   Deleters = {"d1"}
-  Readers = {"r1"}
+  Readers = {}
   Limit = 60
   Sequential = FALSE
   SplitLoads = FALSE
   Fused = TRUE
-  BKeys = {"k1"}
+  BKeys = {}
   PerWriter = 1
   RandomPick = FALSE
   Rich = FALSE
   MaxWrites = 2
-  MaxSnaps = 1
+  MaxSnaps = 0
   MaxDeletes = 1
-  MaxReads = 1
+  MaxReads = 0
   MaxSizes = 0
   MaxOps = 3
-INVARIANTS ValuesContract SizeAccounting PresenceOK CountersNonNegative EntriesTyped
-PROPERTIES RejectedStoresNothing TypeConflictOneKey WriteOutcomeStep LimitStep
+INVARIANTS StrictSizeNoDedupNoStray
 VIEW View
 CHECK_DEADLOCK FALSE
